@@ -277,6 +277,10 @@ func (c *ctx) replay(lines []string) {
 				}
 				continue
 			}
+			if strings.HasPrefix(f[2], "forward.Unwrap") || strings.HasPrefix(f[2], "carbons.Unwrap") {
+				unwrapCase(c, sub, "replay")
+				continue
+			}
 			if strings.HasPrefix(f[2], "pubsub.") && find(f[2]) == nil {
 				pubsubCase(c, sub, "replay")
 				continue
@@ -351,6 +355,12 @@ func Run(r *common.Run) error {
 			r.Mark("case %s %d", strings.ReplaceAll(e.name, " ", "_"), k)
 			e.one(c, r.Rnd.Uint64(), k%6 == 5, "random")
 		}
+	}
+	// forwarding / carbons: Wrap then Unwrap
+	nUnw := r.Pick(200, 3000)
+	for k := 0; k < nUnw; k++ {
+		r.Mark("case unwrap %d", k)
+		unwrapCase(c, r.Rnd.Uint64(), "random")
 	}
 	// pubsub request builders on a real session
 	nPub := r.Pick(60, 600)
